@@ -3,6 +3,7 @@
 #define private public
 #define protected public
 #include "src/archive.cpp"
+#include <cppcms/archive_traits.h>
 #undef private
 #undef protected
 #include "verif.h"
@@ -95,4 +96,57 @@ extern "C" void h_c19b_chunk_roundtrip()
     }
     CHECKM(a.eof(), "eof() false after the last chunk");
     WITNESS("K chunks round trip");
+}
+
+// C19.d: typed loaders on damaged archives: archive_traits<std::vector<int>>, <std::vector<short>>,
+// <std::string>, <int> from arbitrary bytes either throw or load a value that fits inside the
+// archive; nothing is read or written outside the archive / the destination.
+template<typename T> static void load_arbitrary(unsigned elem_size)
+{
+    cppcms::archive &a = *new cppcms::archive();
+    unsigned n;
+    make_archive(a, n);
+    T &v = *new T();
+    try {
+        cppcms::archive_traits<T>::load(v, a);
+        CHECKM(a.ptr_ <= a.buffer_.size(), "read position left the archive");
+        CHECKM(v.size() * elem_size + 4 <= n, "loaded more elements than the archive holds");
+        WITNESS("loaded");
+    } catch (cppcms::archive_error const &) {
+        WITNESS("archive_error");
+    } catch (std::exception const &) {
+        // length_error / bad_alloc for absurd sizes: allowed by the property ("throws an exception")
+    }
+    VERIF_END();
+}
+extern "C" void h_c19d_vector_int() { load_arbitrary<std::vector<int> >(4); }
+extern "C" void h_c19d_vector_short() { load_arbitrary<std::vector<short> >(2); }
+extern "C" void h_c19d_string() { load_arbitrary<std::string>(1); }
+
+// C19.c: traits round trip: load(save(x)) == x
+extern "C" void h_c19c_traits_roundtrip()
+{
+    unsigned k = verif_param(0);     // number of vector elements / string length
+    cppcms::archive &a = *new cppcms::archive();
+    a.reserve(64);
+    std::vector<int> &v = *new std::vector<int>(k);
+    for (unsigned i = 0; i < k; i++) v[i] = (int)nondet_u32();
+    std::string &s = *new std::string(k, 'x');
+    for (unsigned i = 0; i < k; i++) s[i] = (char)nondet_u8();
+    int x = (int)nondet_u32();
+    cppcms::archive_traits<std::vector<int> >::save(v, a);
+    cppcms::archive_traits<std::string>::save(s, a);
+    cppcms::archive_traits<int>::save(x, a);
+    a.mode(cppcms::archive::load_from_archive);
+    std::vector<int> &v2 = *new std::vector<int>();
+    std::string &s2 = *new std::string();
+    int x2 = 0;
+    cppcms::archive_traits<std::vector<int> >::load(v2, a);
+    cppcms::archive_traits<std::string>::load(s2, a);
+    cppcms::archive_traits<int>::load(x2, a);
+    CHECKM(v2.size() == k && s2.size() == k && x2 == x, "round trip changed a size or the int");
+    for (unsigned i = 0; i < k; i++) { CHECKM(v2[i] == v[i], "vector element changed"); CHECKM(s2[i] == s[i], "string byte changed"); }
+    CHECKM(a.eof(), "archive not fully consumed");
+    WITNESS("round trip");
+    VERIF_END();
 }
